@@ -304,6 +304,58 @@ func runScen(w *world, g *hx.Gen, sc scen) {
 			return
 		}
 		serve(s2, subj)
+		if sc.kind == "https" && runTier == "thorough" {
+			// thorough tier: a burst of user connections races the CloseProxy with no gate; whichever side of the
+			// close each one lands on, none may stay open once userConnTimeout (2 s) has passed
+			burst := w.helloBurst(subj.domains[0], 150)
+			w.closeProxy(s2, subjName)
+			w.pair(iPre, w.last())
+			open := 0
+			deadline := time.Now().Add(3500 * time.Millisecond)
+			for _, uc := range burst {
+				left := time.Until(deadline)
+				if left < 10*time.Millisecond {
+					left = 10 * time.Millisecond
+				}
+				if !hx.ConnClosedWithin(uc, left) {
+					open++
+				}
+				uc.Close()
+			}
+			if open > 0 {
+				w.fail("user-conn-open-after-proxy-close:https", fmt.Sprintf("%d of %d user connections that raced the close of an https proxy are still open 3.5 s later", open, len(burst)))
+			}
+			if w.broken {
+				return
+			}
+			if !mustOK(w.newProxy(s2, subj, npOpts{}), "reregister-refused:"+sc.label()) {
+				return
+			}
+			break
+		}
+		if sc.kind == "https" {
+			// a user connection has been routed to the subject's listener and is about to be handed over (held at
+			// vhost.mux.before_handoff) when the proxy closes: it must be closed, not left waiting for ever
+			if uc := w.userConnAtHandoff(subj.domains[0]); uc != nil {
+				defer func(uc net.Conn) {
+					if !hx.ConnClosedWithin(uc, 2*time.Second) {
+						w.fail("user-conn-open-after-proxy-close:https", "a user connection that was being handed to an https proxy when it closed is still open 2 s later")
+					}
+					uc.Close()
+				}(uc)
+				w.closeProxy(s2, subjName)
+				verifhook.Install(nil)
+				w.releaseHandoff()
+				w.pair(iPre, w.last())
+				if w.broken {
+					return
+				}
+				if !mustOK(w.newProxy(s2, subj, npOpts{}), "reregister-refused:"+sc.label()) {
+					return
+				}
+				break
+			}
+		}
 		if sc.kind == "xtcp" {
 			// a visitor's hole-punching request is in flight: the proxy's goroutine has taken the session id and
 			// waits for a work connection of its owner (nobody answers).  Close must unregister the NAT-hole
@@ -530,6 +582,67 @@ func runScen(w *world, g *hx.Gen, sc scen) {
 		if !mustOK(w.newProxy(s2, finalReq, npOpts{}), "reregister-refused:"+sc.label()) {
 			return
 		}
+	case "g:joinleave":
+		// B (the subject) joins the group while A (gby, its only member) leaves: B's join is held between the
+		// controller's lookup and the join itself (gate group.<kind>.after_lookup), A's CloseProxy is sent, 200 ms
+		// pass, B goes on.  The controller keeps its lock across the join, so A's leave waits: B joins the live
+		// group, A leaves it, the group lives on with B.  Then B stops: group, route / port and membership gone.
+		iPre := w.last()
+		s := w.peers[s2]
+		gatePoint, gateKey := "group.http.after_lookup", subjName
+		switch sc.kind {
+		case "tcpgrp":
+			gatePoint = "group.tcp.after_lookup"
+		case "muxgrp":
+			gatePoint, gateKey = "group.tcpmux.after_lookup", subj.group
+		}
+		gt := installGate(gatePoint, gateKey)
+		released := false
+		rel := func() {
+			if !released {
+				released = true
+				close(gt.release)
+			}
+		}
+		defer verifhook.Install(nil)
+		defer rel()
+		if err := s.p.Send(subj.toMsg()); err != nil {
+			w.harnessFail("cannot send NewProxy")
+			return
+		}
+		select {
+		case <-gt.reached:
+		case <-time.After(3 * time.Second):
+			w.harnessFail("the gated join did not reach " + gatePoint)
+			return
+		}
+		if err := w.peers[s1].p.CloseProxy("gby"); err != nil {
+			w.harnessFail("cannot send CloseProxy")
+			return
+		}
+		time.Sleep(200 * time.Millisecond)
+		rel()
+		m, err := s.p.RecvUntil(5*time.Second, func(m msg.Message) bool { _, ok := m.(*msg.NewProxyResp); return ok })
+		if err != nil {
+			w.harnessFail("no reply to the gated join")
+			return
+		}
+		verifhook.Install(nil)
+		codeB := respCode(subj, m.(*msg.NewProxyResp))
+		if !w.sync(s) || !w.sync(w.peers[s1]) {
+			w.harnessFail("ping round trip failed")
+			return
+		}
+		if !mustOK(codeB, "subject-refused:"+sc.label()) {
+			return
+		}
+		w.recordNew(s2, subj, codeB, m.(*msg.NewProxyResp).Error, true, noObs, "")
+		w.emit(fmt.Sprintf("(SCloseProxy %d %s)", s1, hx.Str("gby")), 0, w.observe())
+		w.closeProxy(s2, subjName)
+		_ = iPre
+		if !mustOK(w.newProxy(s2, finalReq, npOpts{}), "reregister-refused:"+sc.label()) {
+			return
+		}
 	case "f:gkey":
 		bad := subj
 		bad.gkey = "wrong"
@@ -597,6 +710,13 @@ func runScen(w *world, g *hx.Gen, sc scen) {
 		// runs inside the dispatcher's read loop, so the teardown can only start after the registration has
 		// finished and stored its proxy: model = the registration (no reply can be read), then the session end.
 		s := w.peers[s2]
+		// a tcp proxy of the same session: a user connection to it after the drop makes the server SEND on the
+		// dead control connection (ReqWorkConn) while the registration is still held: a write error must not
+		// end the dispatcher before the handler in flight has returned
+		trig := preq{kind: "tcp", name: "trig", port: w.pick()}
+		if !mustOK(w.newProxy(s2, trig, npOpts{}), "setup-refused:"+sc.label()) {
+			return
+		}
 		gt := installGate("ctl.regproxy.after_exist", subjName)
 		released := false
 		rel := func() {
@@ -619,7 +739,16 @@ func runScen(w *world, g *hx.Gen, sc scen) {
 			return
 		}
 		s.p.Close()
-		time.Sleep(300 * time.Millisecond)
+		time.Sleep(50 * time.Millisecond)
+		// three user connections 60 ms apart: the first write to a connection the peer has closed still succeeds
+		// at the socket level, the later ones fail
+		for i := 0; i < 3; i++ {
+			if uc, err := net.DialTimeout("tcp", net.JoinHostPort(w.addr, fmt.Sprint(trig.port)), 300*time.Millisecond); err == nil {
+				defer uc.Close()
+			}
+			time.Sleep(60 * time.Millisecond)
+		}
+		time.Sleep(200 * time.Millisecond)
 		rel()
 		gone := w.waitGone(s.runID, done, 3*time.Second)
 		verifhook.Install(nil)
@@ -748,7 +877,8 @@ func runScen(w *world, g *hx.Gen, sc scen) {
 			w.harnessFail("the gated registration did not reach ctl.regproxy.after_exist")
 			return
 		}
-		twin := preq{kind: subj.kind, name: subjName}
+		twin := subj // same kind, name and (for a grouped http proxy) group, key and route
+		twin.bw = false
 		resp1, err := w.peers[s1].p.NewProxy(twin.toMsg())
 		if err != nil {
 			w.harnessFail("no reply to the twin registration")
@@ -765,6 +895,9 @@ func runScen(w *world, g *hx.Gen, sc scen) {
 		want := -14
 		if sc.kind == "xtcp" {
 			want = -15
+		}
+		if sc.kind == "httpgrp" {
+			want = -9 // the group refuses a second member of the same name; the first one's membership must survive
 		}
 		expect(code2, want)
 		if code2 != want && code2 != -11 {
@@ -811,28 +944,28 @@ func pathsFor(kind string) []string {
 	if kind == "tcp" {
 		ps = append(ps, "dropclogged") // costs ~3 s (megabytes of unread Pongs): one kind
 	}
-	if withExistRace && (kind == "stcp" || kind == "sudp" || kind == "xtcp") {
+	if withExistRace && (kind == "stcp" || kind == "sudp" || kind == "xtcp" || kind == "httpgrp") {
 		ps = append(ps, "f:existrace")
 	}
 	switch kind {
 	case "tcp", "udp":
 		ps = append(ps, "f:used", "f:notallowed", "f:squat", "f:noavail", "f:listen", "f:quota")
 	case "tcpgrp":
-		ps = append(ps, "f:used", "f:notallowed", "f:squat", "f:noavail", "f:listen", "f:quota", "f:gkey", "f:gport")
+		ps = append(ps, "f:used", "f:notallowed", "f:squat", "f:noavail", "f:listen", "f:quota", "f:gkey", "f:gport", "g:joinleave")
 	case "http":
 		ps = append(ps, "f:dom2", "f:loc2", "f:first")
 	case "https", "tcpmux":
 		ps = append(ps, "f:dom2", "f:first")
 	case "httpgrp":
-		ps = append(ps, "f:first", "f:gkey", "f:gdom", "f:g2dom", "f:grepeat")
+		ps = append(ps, "f:first", "f:gkey", "f:gdom", "f:g2dom", "f:grepeat", "g:joinleave")
 	case "muxgrp":
-		ps = append(ps, "f:first", "f:gkey", "f:gdom", "f:g2dom")
+		ps = append(ps, "f:first", "f:gkey", "f:gdom", "f:g2dom", "g:joinleave")
 	}
 	return ps
 }
 
 var allPaths = []string{"close", "drop", "dropearly", "dropinflight", "dropclogged", "replace", "heartbeat", "f:exists", "f:used", "f:notallowed", "f:squat",
-	"f:noavail", "f:listen", "f:dom2", "f:loc2", "f:first", "f:gkey", "f:gport", "f:gdom", "f:g2dom", "f:grepeat", "f:quota", "f:addrace", "f:existrace"}
+	"f:noavail", "f:listen", "f:dom2", "f:loc2", "f:first", "f:gkey", "f:gport", "f:gdom", "f:g2dom", "f:grepeat", "g:joinleave", "f:quota", "f:addrace", "f:existrace"}
 
 // normalise: settle the flags a path or kind forces
 func normalise(sc scen) scen {
@@ -842,6 +975,8 @@ func normalise(sc scen) scen {
 	switch sc.path {
 	case "f:gkey", "f:gport", "f:gdom":
 		sc.grpBy = true
+	case "g:joinleave":
+		sc.grpBy, sc.own, sc.port0, sc.pool, sc.extras = true, true, false, 0, 0
 	case "f:first", "f:used", "f:notallowed", "f:squat", "f:noavail", "f:listen":
 		sc.grpBy = false // the subject must be the group's first member
 	}
@@ -922,6 +1057,16 @@ func matrix(seed int64, tier string) []scen {
 			b.pool = 0
 		}
 		per["heartbeat"] = []scen{a, b}
+		// the gate-driven paths run one after the other (the gate controller is process-wide): six kinds each
+		// in the quick tier, rotating with the seed; all eleven in the thorough tier
+		for _, p := range []string{"dropinflight", "f:addrace"} {
+			l := per[p]
+			keep := []scen{}
+			for i := 0; i < 6 && i < len(l); i++ {
+				keep = append(keep, l[(i*2+int(seed))%len(l)])
+			}
+			per[p] = keep
+		}
 	}
 	out := []scen{}
 	for round := 0; ; round++ {
@@ -1002,7 +1147,11 @@ func runCase(seed int64, ci int, sc scen, addr string, rec *recorder) caseResult
 	return caseResult{text: w.caseText(), oks: w.oks, sc: sc, codes: w.codes}
 }
 
+// runTier: the tier of this run (set once before the workers start)
+var runTier = "quick"
+
 func runRelease(cfg *hx.RunCfg) error {
+	runTier = cfg.Tier
 	hx.Quiet()
 	rec := newRecorder()
 	only := ""
@@ -1043,7 +1192,7 @@ func runRelease(cfg *hx.RunCfg) error {
 		}
 	}
 	for i, sc := range scs {
-		if sc.path != "heartbeat" && sc.path != "f:addrace" && sc.path != "f:existrace" && sc.path != "dropinflight" {
+		if sc.path != "heartbeat" && sc.path != "f:addrace" && sc.path != "f:existrace" && sc.path != "dropinflight" && sc.path != "g:joinleave" {
 			order = append(order, i)
 		}
 	}
@@ -1066,7 +1215,7 @@ func runRelease(cfg *hx.RunCfg) error {
 	close(jobs)
 	wg.Wait()
 	for i, sc := range scs {
-		if sc.path == "f:addrace" || sc.path == "f:existrace" || sc.path == "dropinflight" {
+		if sc.path == "f:addrace" || sc.path == "f:existrace" || sc.path == "dropinflight" || sc.path == "g:joinleave" {
 			results[i] = runCase(cfg.Seed, i, sc, loop(1), rec)
 		}
 	}
